@@ -131,6 +131,9 @@ class Ctx:
     def coq_props(self, propfile):
         """Compile Props/<propfile>.v (and its dependencies); account theorems and axioms.
         Returns (ok, failing_theorem_or_None, log)."""
+        if getattr(self, "hook", None):
+            import gentables
+            gentables.regenerate(self)    # T-table: the tables the theorems mention come from the current sources
         src = os.path.join(COQ, "Props", propfile + ".v")
         text = open(src).read()
         thms = [(m.group(1), text[:m.start()].count("\n") + 1)
